@@ -109,6 +109,8 @@ type Scenario struct {
 	RootOK     bool     `json:"rootOk"`
 	TooLate    bool     `json:"tooLate"` // block timestamp is set beyond now + FutureBound at run time
 	VWDup      bool     `json:"vwDup"`   // the validity window reports a duplicate
+	ParentBlockTs uint64 `json:"parentBlockTs"` // timestamp in the parent block's HEADER (0 = same as the state timestamp ParentTs)
+	Genesis    []Alloc  `json:"genesis"`       // non-nil: the parent is the genesis commit of these allocations (C11 genesis scenarios)
 	Morpheus   bool     `json:"morpheus"` // reference VM: morpheusvm balance handler + Transfer actions
 	FailKey    []byte   `json:"failKey"` // reading this key from the parent view returns an injected error (nil = none)
 	Txs        []TxIn   `json:"txs"`
@@ -513,9 +515,23 @@ func universeKeys() [][]byte {
 func (s *Scenario) execute(cfg Config) (Output, error) {
 	ctx := context.Background()
 	out := Output{Config: cfg}
-	db, err := newDB(s.parentMap())
-	if err != nil {
-		return out, err
+	var db merkledb.MerkleDB
+	var err error
+	if s.Genesis != nil {
+		// the parent is the REAL genesis commit
+		_, gview, gdb, gerr := genesisCommit(ctx, &GenesisScenario{Allocs: s.Genesis, MinPrice: s.ParentFee.Prices})
+		if gerr != nil {
+			return out, gerr
+		}
+		if err := gview.CommitToDB(ctx); err != nil {
+			return out, err
+		}
+		db = gdb
+	} else {
+		db, err = newDB(s.parentMap())
+		if err != nil {
+			return out, err
+		}
 	}
 	root, err := db.GetMerkleRoot(ctx)
 	if err != nil {
@@ -1010,7 +1026,7 @@ func (s *Scenario) coq(txs []*hchain.Transaction, outs []Output) string {
 	}
 	uni := s.universeKeys()
 	return emit.App("mkCase",
-		emit.List("list N * list N", parent), emit.N(s.ParentH), emit.N(s.ParentTs), s.ParentFee.coq(), emit.Bool(s.NoHeight),
+		emit.List("list N * list N", parent), emit.N(s.ParentH), emit.N(s.ParentTs), emit.N(s.parentBlockTs()), s.ParentFee.coq(), emit.Bool(s.NoHeight),
 		s.Rules.coq(), emit.Z(s.BlockTs), emit.N(s.BlockH), emit.Bool(s.RootOK), emit.Bool(s.TooLate), emit.Bool(s.VWDup), failKeyCoq(s.FailKey),
 		emit.List("tx", txc), emit.BytesList(uni), emit.BytesList(metaKeys()), emit.List("output", oc))
 }
@@ -1129,4 +1145,11 @@ func (s *Scenario) exactPatterns(r *rand.Rand) {
 			s.Txs[0].Transfers[i].Value = all - uint64(r.Intn(3))
 		}
 	}
+}
+
+func (s *Scenario) parentBlockTs() uint64 {
+	if s.ParentBlockTs != 0 {
+		return s.ParentBlockTs
+	}
+	return s.ParentTs
 }
